@@ -7,6 +7,8 @@ import (
 	"fmt"
 	"io"
 	"strings"
+	"sync"
+	"sync/atomic"
 	"testing"
 
 	"connectrpc.com/conformance/internal/compression"
@@ -63,4 +65,95 @@ func TestVerifC20TracerNames(t *testing.T) {
 	_, _ = io.ReadAll(d)
 	rep.Eval(1)
 	rep.Sample(map[string]any{"name": "GZIP", "law": "decodes what compression.GetCompressor(COMPRESSION_GZIP) wrote"})
+}
+
+// TestVerifC20TracerInstances: every caller of GetDecompressor owns what it
+// got: two instances used in an interleaved fashion, and many used
+// concurrently, decode their own streams.
+func TestVerifC20TracerInstances(t *testing.T) {
+	rep := verifkit.Begin("C20", "tracer-instances", "6 encodings: (1) two decompressors from tracer.GetDecompressor driven in the order Reset(A) Reset(B) Read(A) Read(B) and Reset(A) Read(A half) Reset(B) Read(B) Read(A rest); (2) 8 goroutines x 200 decodes each on their own instance, concurrently, under the race detector; oracle: each returns exactly its own message; distinct = (encoding, schedule)")
+	defer rep.Write()
+	names := map[conformancev1.Compression]string{1: "identity", 2: "gzip", 3: "br", 4: "zstd", 5: "deflate", 6: "snappy"}
+	for enc := conformancev1.Compression(1); enc <= 6; enc++ {
+		name := names[enc]
+		mk := func(tag string, n int) ([]byte, []byte) {
+			msg := bytes.Repeat([]byte(tag), n)
+			z, _ := verifkit.IndepCompress(name, msg)
+			return msg, z
+		}
+		msgA, zA := mk("AAAA-message-of-A;", 40)
+		msgB, zB := mk("bbbb-MESSAGE-OF-B;", 300)
+		for _, sched := range []string{"RaRbAB", "Ra-a-Rb-B-a"} {
+			rep.Eval(1)
+			rep.DistinctKey(name, sched)
+			a, b := GetDecompressor(name), GetDecompressor(name)
+			var outA, outB []byte
+			var errA, errB error
+			pn := verifkit.Catch(func() {
+				switch sched {
+				case "RaRbAB":
+					errA = a.Reset(bytes.NewReader(zA))
+					errB = b.Reset(bytes.NewReader(zB))
+					if errA == nil {
+						outA, errA = io.ReadAll(a)
+					}
+					if errB == nil {
+						outB, errB = io.ReadAll(b)
+					}
+				default:
+					errA = a.Reset(bytes.NewReader(zA))
+					first := make([]byte, 10)
+					k, _ := io.ReadFull(a, first)
+					errB = b.Reset(bytes.NewReader(zB))
+					if errB == nil {
+						outB, errB = io.ReadAll(b)
+					}
+					rest, e := io.ReadAll(a)
+					outA, errA = append(first[:k], rest...), e
+				}
+			})
+			w := map[string]any{"encoding": name, "schedule": sched}
+			if pn != nil {
+				rep.Violation("compress/"+name+"/tracer-instances/panic/"+pn.Site, pn.Value, w)
+				continue
+			}
+			if errA != nil || errB != nil || !bytes.Equal(outA, msgA) || !bytes.Equal(outB, msgB) {
+				rep.Violation("compress/"+name+"/tracer-instances-not-independent", fmt.Sprintf("two decompressors obtained from the tracer interfere: A got %d bytes (%q..., err %v) want %d; B got %d bytes (%q..., err %v) want %d", len(outA), verifkit.Trunc(string(outA), 12), errA, len(msgA), len(outB), verifkit.Trunc(string(outB), 12), errB, len(msgB)), w)
+			} else {
+				rep.Count("interleaved_ok", 1)
+			}
+		}
+		// concurrent owners
+		var wg sync.WaitGroup
+		var bad atomic.Int32
+		for g := 0; g < 8; g++ {
+			wg.Add(1)
+			go func(g int) {
+				defer wg.Done()
+				msg, z := mk(fmt.Sprintf("goroutine-%d;", g), 50+g)
+				for i := 0; i < 200; i++ {
+					d := GetDecompressor(name)
+					if err := d.Reset(bytes.NewReader(z)); err != nil {
+						bad.Add(1)
+						continue
+					}
+					out, err := io.ReadAll(d)
+					if err != nil || !bytes.Equal(out, msg) {
+						bad.Add(1)
+					}
+					_ = d.Close()
+				}
+			}(g)
+		}
+		wg.Wait()
+		rep.Eval(1600)
+		rep.DistinctKey(name, "concurrent")
+		if n := bad.Load(); n > 0 {
+			rep.Violation("compress/"+name+"/tracer-instances-concurrent", fmt.Sprintf("%d of 1600 concurrent decodes on per-goroutine instances returned something other than their own message", n), map[string]any{"encoding": name})
+		} else {
+			rep.Count("concurrent_ok", 1)
+		}
+	}
+	rep.Sample(map[string]any{"encoding": "zstd", "schedule": "Reset(A) Reset(B) Read(A) Read(B)", "expect": "A's message from A, B's from B"})
+	rep.RequireMin("interleaved_ok", 12)
 }
